@@ -326,6 +326,7 @@ FIELDS = {
     "hid": ("int", "Attr(default=0, compare=False, repr=False)", 0, [9]),
     "opt": ("Optional[int]", "None", None, [3]),
     "nd": ("int", None, 5, [6, "<omit>"]),  # no default: omitting the keyword leaves it missing
+    "sb": ("Any", "None", "<selfbound>", [None, 5]),  # a method of the instance ITSELF stored in an attribute (x.sb = x.m_self)
 }
 
 
@@ -338,6 +339,7 @@ def mixed_class(order, variant="base"):
         if variant == "hid_visible" and n == "hid":
             dflt = "0"  # an ordinary attribute of the same NAME as another class' hidden one (rendered after it, in the same process)
         lines.append(f"    {n}: {ann} = {dflt}" if dflt is not None else f"    {n}: {ann}")
+    lines += ["    def m_self(self):", "        return 1"]
     # spec subclasses that make the library rebuild the inherited attribute specifications: the options the
     # owner declared (compare=False, repr=False) must survive a re-default / a change of copy policy
     if variant == "sub_redefault":
@@ -346,6 +348,14 @@ def mixed_class(order, variant="base"):
         lines += ["@spec_class(do_not_copy=True)", "class Sub(Mixed):", "    pass"]
     exec(compile("\n".join(lines) + "\n", "<c10-mixed>", "exec", dont_inherit=True), ns)
     return ns["Sub" if variant in ("sub_redefault", "sub_dnc") else "Mixed"]
+
+
+def build_mixed(cls, kw):
+    inst = cls(**{k: v for k, v in kw.items() if not (isinstance(v, str) and v in ("<omit>", "<selfbound>"))})
+    for k, v in kw.items():
+        if isinstance(v, str) and v == "<selfbound>":
+            setattr(inst, k, inst.m_self)
+    return inst
 
 
 def single_diff_worker(task):
@@ -359,8 +369,17 @@ def single_diff_worker(task):
         cls = mixed_class(order, variant)
         C.inc("states")
         base_kw = {n: copy.copy(FIELDS[n][2]) if isinstance(FIELDS[n][2], list) else FIELDS[n][2] for n in order}
-        x = cls(**base_kw)
+        x = build_mixed(cls, base_kw)
         C.inc("evaluations")
+        try:
+            cx = copy.deepcopy(x)
+            same = bool(cx == x) and bool(x == cx) and ("sb" not in order or getattr(cx, "sb", None).__self__ is cx)
+        except Exception as e:
+            same = False
+        if not same:
+            C.viol(violation(PROP, {"part": "single_difference", "kind": "deepcopy_not_equal", "variant": variant, "has_selfbound": "sb" in order},
+                             {"x": repr(x)[:200], "copy": repr(cx)[:200] if "cx" in dir() else None},
+                             {"part": "single_difference", "order": list(order), "attr": order[0], "alt": repr(FIELDS[order[0]][3][0]), "variant": variant}))
         rn = repr_names(x.__repr__(indent=False))
         if rn != [n for n in order if n not in hidden]:
             C.viol(violation(PROP, {"part": "single_difference", "kind": "repr_attribute_list", "variant": variant},
@@ -370,7 +389,7 @@ def single_diff_worker(task):
             for alt in FIELDS[n][3]:
                 kw = dict(base_kw)
                 kw[n] = alt
-                y = cls(**{k: v for k, v in kw.items() if not (isinstance(v, str) and v == "<omit>")})
+                y = build_mixed(cls, kw)
                 C.inc("transitions")
                 C.inc("evaluations")
                 exp = (n in hidden)
@@ -597,7 +616,7 @@ def main(run):
     names = ["i", "cb", "s", "hid", "fn"] if quick else ["i", "cb", "s", "hid", "fn", "xs"]
     orders = list(itertools.permutations(names))
     extra = [("cb", "mod", "kls", "i"), ("mod", "cb", "i", "opt"), ("kls", "i", "cb", "xs", "hid"), ("opt", "cb", "mod", "s"),
-             ("nd", "cb", "i"), ("cb", "nd", "s"), ("i", "cb", "hid", "nd")]
+             ("nd", "cb", "i"), ("cb", "nd", "s"), ("i", "cb", "hid", "nd"), ("sb", "i", "xs"), ("i", "sb", "cb"), ("xs", "hid", "sb")]
     orders += extra
     for i in range(0, len(orders), 12):
         tasks.append({"part": "single", "orders": orders[i:i + 12]})
